@@ -1211,13 +1211,18 @@ def fault_plan(hist_path, tier, seed):
     return tasks, info
 
 
-def fault_history(hist_path, op_index, tag):
-    """history = ops[:i+1] + retry of op i + the two following ops"""
+def fault_history(hist_path, op_index, tag, variant=0):
+    """history = ops[:i+1] + retry of op i + the two following ops  (variant 0);
+    variants 1..3 do NOT retry but go on with a different publishing operation (the failed
+    attempt's leftovers - a complete or partial v<N+1>, temp files, unpublished tables - must
+    not disturb it): 1 = major compaction, 2 = clear, 3 = drop_range(..)"""
     lines = open(hist_path).read().splitlines()
     cfg, ops = lines[0], lines[1:]
     op = ops[op_index]
     new = ops[:op_index + 1]
-    if op.split()[0] == "flushactive":
+    if variant and op != "reopen":
+        new.append({1: "major 300 min", 2: "clear", 3: "droprange u u"}[variant])
+    elif op.split()[0] == "flushactive":
         # the memtable was already rotated by the failed attempt
         new.append("flush " + op.split()[1])
     elif op != "reopen":
@@ -1234,7 +1239,10 @@ def run_fault(task):
     t0 = time.time()
     fails = []
     tag = "f%d-%s" % (task["op_index"], task["inject"].replace(":", "_"))
-    hp = fault_history(task["history"], task["op_index"], tag)
+    variant = (0, 0, 1, 0, 2, 0, 3, 1)[(task["k"] + task["op_index"]) % 8]
+    if variant:
+        tag += "-alt%d" % variant
+    hp = fault_history(task["history"], task["op_index"], tag, variant)
     keep = False
 
     def fail(kind, detail, **kw):
@@ -1312,6 +1320,25 @@ def gen_reclaim_history(seed, blob, n_ops):
                   "major 300 min"]
     if rnd.random() < 0.7:
         extra += ["ingest", "put 64 " + val(4), "flushactive min", "put 65 " + val(5), "flushactive min"]
+    if blob:
+        # blob churn: rounds of flushes that overwrite shrinking subsets of the keys (older blob
+        # files become partially stale, then dead), compactions that first collect statistics and
+        # then relocate / drop blob files, then enough publishing ops with the high watermark to
+        # retire every older superversion, so that a leaked blob file shows in the listing
+        ks = [hx(k) for k in rnd.sample(KEYS, min(len(KEYS), rnd.choice([2, 3, 4])))]
+        n = 10
+        for rd in range(rnd.choice([2, 3, 4])):
+            sub = ks[: max(1, len(ks) - rd)] if rnd.random() < 0.7 else rnd.sample(ks, rnd.randint(1, len(ks)))
+            for k in sub:
+                n += 1
+                extra.append("put %s %s" % (k, val(n)))
+            extra.append("flushactive %s" % rnd.choice(["0", "min"]))
+        for _ in range(rnd.choice([1, 2, 3])):
+            extra.append("major %d min" % rnd.choice([300, 64000000, 64000000]))
+        for j in range(2):
+            n += 1
+            extra += ["put 7a %s" % val(n), "flushactive min"]
+        base[0] = base[0].replace("stale=0 ", "stale=%s " % rnd.choice(["0", "0.25", "0.25", "0.5"]))
     extra += ["reopen"]
     return "\n".join(base + extra) + "\n"
 
@@ -1527,6 +1554,8 @@ def run(mode, tier="quick", seed=1, procs=None):
                 all_fails += r["fails"]
                 add_stats(stats, r["stats"])
                 result["samples"] += r["samples"][:1]
+                if r["stats"].get("opens", 0) > 0 and r["stats"].get("protocol_ok", 0) > 0:
+                    stats["nontrivial_histories"] = stats.get("nontrivial_histories", 0) + 1
             stats["histories"] = len(jobs)
             stats["expected"] = exp.get()
         elif mode == "fault":
@@ -1543,9 +1572,12 @@ def run(mode, tier="quick", seed=1, procs=None):
                 if "error" in info:
                     all_fails.append({"kind": "engine-exception", "history": info["history"], "direct": False, "detail": info["error"]})
                 tasks += ts
+                if ts:
+                    stats["nontrivial_histories"] = stats.get("nontrivial_histories", 0) + 1
                 stats["fault_points_total"] += info.get("calls", 0) * 2
                 stats["fs_segments"] = stats.get("fs_segments", 0) + info.get("segments", 0)
             stats["histories"] = len(hists)
+            result["samples"] += [{"history": os.path.basename(h), "ops": open(h).read().split("\n")[:14]} for h in hists[:2]]
             stats["fault_runs"] = len(tasks)
             # crash images after a late persist failure + retry, on the generated histories too
             late_jobs = []
@@ -1567,11 +1599,28 @@ def run(mode, tier="quick", seed=1, procs=None):
                 blob = i % 3 == 2
                 hists.append(write_hist("reclaim-s%d-%03d%s" % (seed, i, "b" if blob else ""),
                                         gen_reclaim_history(seed * 1000 + i, blob, 8 + i % 9)))
+            # histories of the tree-level generators (harness/src/gen.rs): relocating blob
+            # compactions, FIFO, drop_range, ingestion, snapshots held and released
+            lsmv = os.path.join(ROOT, "harness", "target", "debug", "lsmv")
+            profs = [("blob", True), ("blob", True), ("tree", True), ("drop", True), ("ingest", False), ("fifo", True), ("weak", True), ("tree", False)]
+            for i in range(64 if quick else 480):
+                prof, bl = profs[i % len(profs)]
+                try:
+                    txt = subprocess.run([lsmv, "gen", prof, str(seed * 100000 + i), "70"] + (["blob"] if bl else []),
+                                         capture_output=True, text=True, timeout=60).stdout
+                except Exception:
+                    txt = ""
+                if txt.startswith("cfg "):
+                    hists.append(write_hist("reclaim-s%d-g%03d-%s" % (seed, i, prof), txt))
+            n = len(hists)
             exp = pool.map_async(_expected_job, ["S3-clear-leak", "S4-empty-ingest-leak"])
             for r in pool.imap_unordered(_reclaim_job, hists):
                 all_fails += r["fails"]
                 add_stats(stats, r["stats"])
+                if r["stats"].get("exact_checks", 0) >= 3:
+                    stats["nontrivial_histories"] = stats.get("nontrivial_histories", 0) + 1
             stats["histories"] = n
+            result["samples"] += [{"history": os.path.basename(h), "ops": open(h).read().split("\n")[:14]} for h in hists[:2]]
             stats["expected"] = exp.get()
         else:
             raise SystemExit("unknown mode " + mode)
